@@ -156,15 +156,21 @@ def run_validate(o, recursive):
     return out
 
 
+_ND = {}
+
+
 def writer_namespacedef():
-    """the namespace definitions NeuroMLWriter.write puts on the root element, taken from its source"""
-    import neuroml
-    nd = 'xmlns="http://www.neuroml.org/schema/neuroml2" '
-    nd += ' xmlns:xs="http://www.w3.org/2001/XMLSchema"'
-    nd += ' xmlns:xsi="http://www.w3.org/2001/XMLSchema-instance"'
-    nd += (' xsi:schemaLocation="http://www.neuroml.org/schema/neuroml2 https://raw.github.com/NeuroML/NeuroML2/'
-           'development/Schemas/NeuroML2/NeuroML_%s.xsd"' % neuroml.current_neuroml_version)
-    return nd
+    """the namespace definitions NeuroMLWriter.write puts on the root element: recorded from the real writer by handing
+    it an object whose export() only notes the namespacedef_ it is given"""
+    if "nd" not in _ND:
+        from neuroml.writers import NeuroMLWriter
+
+        class Rec(object):
+            def export(self, outfile, level, name_=None, namespacedef_="", **kw):
+                _ND["nd"] = namespacedef_
+                _ND["name"] = name_
+        NeuroMLWriter.write(Rec(), io.StringIO(), close=False)
+    return _ND["nd"]
 
 
 _SCHEMA = {}
